@@ -148,6 +148,7 @@ def run_sp(case):
     cfg, owner, sid, did, pid, x0, ops = case
     cls = make_owner(cfg, owner, sid, did, pid)
     obj = cls()
+    class_read_ok = cls.p is cls.__dict__["p"]   # Owner.p (instance is None) is the descriptor itself
     d = object.__getattribute__(obj, "__dict__")
     d["x"] = x0
     d["calls"] = 0
@@ -172,7 +173,7 @@ def run_sp(case):
             out = outcome(f)
         extra = sorted(k for k in d if k not in ("p", "x", "_p", "calls", "y"))
         seen.append(out + [enc_opt(d.get("p", ABSENT)), d.get("x", -77), enc_opt(d.get("_p", ABSENT)),
-                           d.get("calls", -77)] + ([-98] if extra else []))
+                           d.get("calls", -77)] + ([-98] if extra or not class_read_ok else []))
     return seen
 
 
@@ -377,6 +378,45 @@ def gen_cp(rng, tier):
     return cases
 
 
+# ------------------------------------------------------------------ line coverage of the anchored functions
+def anchored_coverage(sp_cases, cp_cases):
+    """re-run a sample of the compared cases under sys.settrace and report which lines of the
+    descriptor methods were executed (the others are modelled but not tied in this run)"""
+    import sys
+    import spec_classes  # noqa: F401
+    mod = sys.modules["spec_classes.types.spec_property"]  # (the package attribute of that name is the class)
+    fname = mod.__file__
+    hit = set()
+
+    def tracer(frame, event, arg):
+        if frame.f_code.co_filename != fname:
+            return None
+        if event == "line":
+            hit.add(frame.f_lineno)
+        return tracer
+
+    sys.settrace(tracer)
+    try:
+        for c in sp_cases:
+            run_sp(c)
+        for c in cp_cases:
+            run_cp(c)
+    finally:
+        sys.settrace(None)
+    report = {}
+    for cls in (mod.spec_property, mod.classproperty):
+        for name in ("__get__", "__set__", "__delete__", "_cache_key"):
+            fn = cls.__dict__.get(name)
+            if fn is None:
+                continue
+            code = fn.__code__
+            lines = sorted({ln for _, _, ln in code.co_lines() if ln is not None and ln != code.co_firstlineno})
+            missed = [ln for ln in lines if ln not in hit]
+            report[f"{cls.__name__}.{name}"] = {"lines": len(lines), "executed": len(lines) - len(missed),
+                                                "not_executed": missed}
+    return report
+
+
 # ------------------------------------------------------------------ check
 def evaluate(kind, cases, tag):
     """kind 'sp' | 'cp'; cases: list of case tuples. returns ([(index, code, seen)], logs)"""
@@ -497,12 +537,16 @@ def main(tier, replay=None):
             for o in run(c):
                 k = {1: "value", 0: "none"}.get(o[0]) or [n for n, v in ERR_CODES.items() if v == o[0]][0]
                 outs[f"{kind}:{k}"] = outs.get(f"{kind}:{k}", 0) + 1
+    sp_all, cp_all = [c for c, _ in all_cases["sp"]], [c for c, _ in all_cases["cp"]]
+    line_cov = anchored_coverage(sp_all[:: max(1, len(sp_all) // 1500)] + sp_all[-1500:],
+                                 cp_all[:: max(1, len(cp_all) // 1500)] + cp_all[-1500:])
     n_cases = sum(s["cases"] for s in stats.values())
     distinct = len({repr(c) for k in all_cases for c, _ in all_cases[k]})
     sp, cp = [c for c, _ in all_cases["sp"]], [c for c, _ in all_cases["cp"]]
     extra = {
         "correspondence": {"spec_property": stats["sp"], "classproperty": stats["cp"],
-                           "outcome_histogram_sampled": outs, "disagreements": total_bad},
+                           "outcome_histogram_sampled": outs, "disagreements": total_bad,
+                           "anchored_line_coverage_sampled": line_cov},
         "evaluations": n_cases, "distinct_nontrivial": distinct,
         "rule": "case = (flags, owner kind / hierarchy shape, setter/deleter/preparer pool ids, initial state, operation list); "
                 "spec_property: 16 flag combinations x {plain, spec unmanaged, managed, managed+preparer} x EVERY sequence of "
